@@ -2,18 +2,17 @@
 if "C09" in PROPS:
     p = PROPS["C09"]
     p["modules"] += ["RrProofs.Props.C09Get"]
-    p["streams"] += [S("fresh", 40000, 300000)]
+    # kf.C09-a: the three witness cases of the repaired finding C09-a, now a regression stream (every case must pass)
+    p["streams"] += [S("fresh", 40000, 300000), S("kf.C09-a", 3, 3, 1)]
     p["trivial_labels"] = list(p.get("trivial_labels", [])) + ["undecodable"]
     p["theorems"] += [
-        T("Props.C09Get.fails_witness_a", "witness", "stored ETag abc, If-None-Match: Wabc: cache.Get answers 304 (finding C09-a)"),
-        T("Props.C09Get.fails_witness_a_suffix", "witness", "stored ETag Wabc, ETAG_SUFFIX=-rr, If-None-Match: W/abc-rr: 304"),
-        T("Props.C09Get.Statement_false", "negation", "the clause `304 from cache.Get -> matching validator` is false for the code as it is"),
-        T("Props.C09Get.client_304_only_if_match_partial", "partial", "all entries/clocks/rule settings/validators/suffix tokens (non-empty, no quote) outside class C09-a: decide = 304 -> If-None-Match (suffix removed) weakly equals the stored ETag, or If-Modified-Since equals stored Last-Modified"),
-        T("Props.C09Get.client_304_only_if_match_wellformed", "partial", "same for well-formed tags (empty, quoted, W/-quoted) on both sides"),
-        T("Props.C09Get.wellFormed_not_in_class", "full", "well-formed tags are outside class C09-a"),
-        T("Props.C09Get.get_304_only_if_match_partial", "partial", "same through Freshness.get, lock held or not"),
+        T("Props.C09Get.client_304_only_if_match", "full", "Statement at full strength (after the fix: commit for C09-a; was client_304_only_if_match_partial with the hypothesis `outside class C09-a`): all entries/clocks/rule settings/validators/suffix tokens (non-empty, no quote): decide = 304 -> If-None-Match (suffix removed) weakly equals the stored ETag, or If-Modified-Since equals stored Last-Modified"),
+        T("Props.C09Get.get_304_only_if_match", "full", "same through Freshness.get, lock held or not (was get_304_only_if_match_partial)"),
+        T("Props.C09Get.holds_model", "full", "the oracle Spec.C09Get.holds accepts the model's decision for every input with an admissible suffix"),
+        T("Props.C09Get.etagCheck_sound", "full", "etagCheck = ok true -> Spec.C09Get.etagMatches, for ALL tags and every admissible suffix (normalizeEtag = one W/ prefix removed = the specification's opaque-tag)"),
         T("Props.C09Get.no_validator_no_304", "full", "no If-None-Match and no If-Modified-Since -> decide is never 304 (no side condition)"),
         T("Props.C09Get.no_validator_no_304_get", "full", "same through Freshness.get"),
     ]
+    p["rule"] = p.get("rule", "") + "; fresh: see C08 (public caching.Cache.Get on an entry prepared on disk, ETag forms incl. unquoted tags with leading W and / on either side); kf.C09-a: the three witness cases of the repaired finding C09-a (Wabc vs stored abc, abc vs /abc, W/abc-rr vs Wabc with ETAG_SUFFIX=-rr) as regression cases that must be served in full"
     p["assumptions"] = list(p.get("assumptions", [])) + ["ETAG_SUFFIX is a non-empty token without a double quote",
                          "an empty opaque tag (W/ alone, or the bare suffix) is read as matching an entry without an ETag (lenient reading)"]
